@@ -28,6 +28,11 @@ var c15Tokens = []string{"%w", "%v", "%d", "%s", "%5w", "%-8w", "%+w", "%[1]w", 
 const c15BaseTokens = 14
 
 func init() {
+	replayers["C15/after-propagated-panic"] = func(c *Ctx, raw json.RawMessage) string {
+		var cs struct{ Propagator, Probe int }
+		json.Unmarshal(raw, &cs)
+		return c15AfterProp(cs.Propagator, cs.Probe)
+	}
 	if len(c15Tokens) != c15BaseTokens {
 		panic("c15BaseTokens out of date")
 	}
@@ -310,6 +315,72 @@ func c15Eval(cs c15Case, seen func(string)) (string, string) {
 	return "", ""
 }
 
+func c15Propagators() []struct {
+	Name string
+	Run  func()
+} {
+	return append([]struct {
+		Name string
+		Run  func()
+	}{
+		{"HelperForErrorf(a %w b, error whose Error double-panics)", func() { redact.HelperForErrorf("a %w b", panErrT{panPayT{"x"}}) }},
+		{"HelperForErrorf(%w %v, err, Stringer that double-panics)", func() { redact.HelperForErrorf("%w %v", c15e1, panStrT{panPayT{"x"}}) }},
+	}, c11Propagators...)
+}
+
+// c15AfterProp: probe i in a fresh state, then the propagating call, then probe i again: same answer.
+func c15AfterProp(pi, i int) string {
+	type res struct {
+		text string
+		err  error
+	}
+	run := func() (r res, pv interface{}, pan bool) {
+		pv, pan = recoverTo(func() {
+			t, e := redact.HelperForErrorf(c15AfterProbes[i].F, c15AfterProbes[i].Args...)
+			r = res{string(t), e}
+		})
+		return
+	}
+	ref, _, _ := run()
+	prop := c15Propagators()[pi]
+	recoverTo(prop.Run)
+	got, pv, pan := run()
+	if pan {
+		return fmt.Sprintf("after %s, HelperForErrorf(%q, ...) panics: %v", prop.Name, c15AfterProbes[i].F, pv)
+	}
+	if got.text != ref.text || !sameErr(got.err, ref.err) {
+		return fmt.Sprintf("after %s, HelperForErrorf(%q, %s) = (%q, %s); before it (%q, %s)", prop.Name, c15AfterProbes[i].F, descArgs(c15AfterProbes[i].Args), got.text, errDesc(got.err), ref.text, errDesc(ref.err))
+	}
+	return ""
+}
+
+var c15AfterProbes = []struct {
+	F    string
+	Args []interface{}
+}{
+	{"no verb", nil},
+	{"%v", []interface{}{1}},
+	{"%v %d", []interface{}{c15e2, 2}},
+	{"%w", []interface{}{c15e1}},
+	{"x %w y", []interface{}{c15eNew}},
+	{"%w %w", []interface{}{c15e1, c15e2}},
+	{"%w", []interface{}{5}},
+	{"%s", []interface{}{redact.Safe(c15e1)}},
+}
+
+// errDesc describes an error without trusting its methods (the error may be one whose Error panics)
+func errDesc(e error) (d string) {
+	if e == nil {
+		return "<nil>"
+	}
+	defer func() {
+		if recover() != nil {
+			d = fmt.Sprintf("error of type %T (its Error method panics)", e)
+		}
+	}()
+	return fmt.Sprintf("%T(%q)", e, e.Error())
+}
+
 func sameErr(a, b error) bool {
 	if a == nil || b == nil {
 		return a == nil && b == nil
@@ -388,5 +459,19 @@ func checkC15(c *Ctx) {
 		}
 	})
 	replayers["C15/operand-kinds"] = replayers["C15/helper"]
+	// after a call from which a panic PROPAGATED (the printer of that call is in an arbitrary state, and a change may
+	// recycle it): the next HelperForErrorf calls answer as from a fresh process. One worker (same pool slot).
+	c.Section("C15/after-propagated-panic", map[string]interface{}{"propagating_calls": len(c15Propagators()), "probes": len(c15AfterProbes), "workers": 1}, 1, func(_ int, w *Worker) {
+		for pi := range c15Propagators() {
+			for i := range c15AfterProbes {
+				w.Eval()
+				if d := c15AfterProp(pi, i); d != "" {
+					w.Fail("after-propagated-panic", map[string]int{"Propagator": pi, "Probe": i}, d)
+				}
+			}
+		}
+		w.Seen(1)
+		w.Seen(2)
+	})
 	c.Assume("the reference for argument consumption is this sandbox's fmt run on the same format with %w rewritten to %v/%Z and sentinel operands")
 }
